@@ -136,12 +136,16 @@ def run(tier, seed, replay):
         if not replay and ctl_ok < 4:
             raise vc.ToolError("negative controls: the footprint invariant looks vacuous (%d of %d controls grow on the model)" % (ctl_ok, len(GROW)))
         # --- real code: footprint at n vs 8n
-        cases = [{"id": i, "src": s, "input": null, "n": n, "mode": mode} for i, (s, mode, exp) in enumerate(progs)]
+        cases = [{"id": i, "src": s, "input": null, "n": n if exp != "grow" else min(n, 2000), "mode": mode} for i, (s, mode, exp) in enumerate(progs)]
         results = vc.run_restartable([vh, "footprint"], cases, work, "c20r", timeout=3000)
         real_ctl = 0
         for (src, mode, exp), res_ in zip(progs, results):
             rep.count("evaluations")
             case = {"family": "footprint", "case": {"src": src, "mode": mode, "n": n}}
+            if exp == "grow" and (res_.get("hang") or "panic" in res_):
+                # a negative control (non-tail recursion, legitimately unbounded) that is too slow or too deep at this n: not a verdict
+                rep.count("out_of_model")
+                continue
             if res_.get("hang") or "panic" in res_:
                 rep.violation("%s while consuming %r" % ("hang" if res_.get("hang") else "panic: " + res_["panic"], src), dict(case, actual=res_))
                 continue
